@@ -133,6 +133,7 @@ type peerScript struct {
 	dwrBeh     []string // reaction to the k-th DWR overall
 	dwrIdx     int
 	onFirstCER func() // called once, after the first CER has been written and before the peer reacts
+	osid       uint32 // Origin-State-Id counter of the `O` reaction
 }
 
 func ceaFor(kind string, hbh, e2e uint32) []byte {
@@ -219,6 +220,10 @@ func (p *peerScript) hook(c *memConn, b []byte) (int, error) {
 		seg = append(seg, ceaFor("S", hbh, e2e)...)
 		seg = append(seg, simpleMsg(272, 0, 4, 700+hbh%7, 700, diam.NewAVP(268, 0x40, 0, datatype.Unsigned32(2001)))...)
 		c.deliver(seg)
+	case "cer:Z": // in ONE segment: the success CEA and, right behind it, an application answer
+		seg := append([]byte(nil), ceaFor("S", hbh, e2e)...)
+		seg = append(seg, simpleMsg(272, 0, 4, 7777, 7777, diam.NewAVP(268, 0x40, 0, datatype.Unsigned32(2001)))...)
+		c.deliver(seg)
 	case "cer:L": // a success CEA that takes a third of an interval to arrive
 		go func() { time.Sleep(clientInterval / 3); c.deliver(ceaFor("S", hbh, e2e)) }()
 	case "cer:D":
@@ -233,6 +238,15 @@ func (p *peerScript) hook(c *memConn, b []byte) (int, error) {
 	case "dwr:V": // very late but in time: one and a half watchdog intervals after the request
 		// (only scripted for clients whose RetransmitInterval is three watchdog intervals)
 		go func() { time.Sleep(clientInterval * 3 / 2); c.deliver(dwaFor(2001, hbh, e2e)) }()
+	case "dwr:O": // answered at once, by a peer whose Origin-State-Id differs from answer to answer
+		// (RFC 6733 8.16: it changes when the peer has lost state, e.g. restarted behind a proxy)
+		p.mu.Lock()
+		p.osid++
+		o := p.osid
+		p.mu.Unlock()
+		c.deliver(simpleMsg(280, 0, 0, hbh, e2e, diam.NewAVP(268, 0x40, 0, datatype.Unsigned32(2001)),
+			diam.NewAVP(264, 0x40, 0, datatype.DiameterIdentity("srv.example.net")), diam.NewAVP(296, 0x40, 0, datatype.DiameterIdentity("example.net")),
+			diam.NewAVP(278, 0x40, 0, datatype.Unsigned32(1000+o/2))))
 	case "dwr:T": // the same request answered three times
 		for i := 0; i < 3; i++ {
 			c.deliver(dwaFor(2001, hbh, e2e))
@@ -306,8 +320,14 @@ func execDial(toks []string) string {
 	var hmu sync.Mutex
 	handled := 0
 	metaSeen := "nometa"
+	zHandled := 0
 	machine.HandleFunc("CCA", func(c diam.Conn, m *diam.Message) {
 		hmu.Lock()
+		if m.Header.EndToEndID == 7777 { // the answer that came in the same segment as the success CEA
+			zHandled++
+			hmu.Unlock()
+			return
+		}
 		handled++
 		metaSeen = "meta"
 		if _, ok := smpeer.FromContext(c.Context()); !ok {
@@ -365,6 +385,9 @@ func execDial(toks []string) string {
 	mc := newMemConn()
 	if la, ok := kvGet(toks, "la"); ok && la != "" {
 		mc.local = memAddr{"tcp", la + ":3868"}
+		if la == "zone" { // a link-local IPv6 endpoint with a zone: nothing that can be advertised
+			mc.local = memAddr{"tcp", "[fe80::1%eth0]:3868"}
+		}
 	}
 	if la6, ok := kvGet(toks, "la6"); ok && la6 != "" { // an IPv6 local endpoint: [2001:db8::k]:3868
 		mc.local = memAddr{"tcp", "[2001:db8::" + la6 + "]:3868"}
@@ -459,8 +482,16 @@ func execDial(toks []string) string {
 		late = strconv.Itoa(handled)
 		hmu.Unlock()
 	}
+	zTok := ""
+	if strings.Contains(behS, "Z") {
+		// what followed the success CEA in its segment has passed the gate and reached the application
+		waitFor(mc.readerParked, time.Second)
+		hmu.Lock()
+		zTok = fmt.Sprintf(" z=%d", zHandled)
+		hmu.Unlock()
+	}
 	mc.Close()
-	return fmt.Sprintf("out=%s cers=%d same=%d gap=%s closed=%d pre=%d post=%s late=%s cer=%s", class, ncer, same, gap, closed, pre, post, late, cer0)
+	return fmt.Sprintf("out=%s cers=%d same=%d gap=%s closed=%d pre=%d post=%s late=%s%s cer=%s", class, ncer, same, gap, closed, pre, post, late, zTok, cer0)
 }
 
 func execWD(toks []string) string {
@@ -662,7 +693,7 @@ func genSMClient(r *RNG, n int, op string, emit func(string)) {
 			R := r.Intn(4)
 			var beh []string
 			for k := 0; k < R+1; k++ {
-				b := []string{"N", "N", "P", "S", "S", "F", "M", "A", "U", "D", "W", "X"}[r.Intn(12)]
+				b := []string{"N", "N", "P", "S", "S", "F", "M", "A", "U", "D", "W", "X", "Z"}[r.Intn(13)]
 				beh = append(beh, b)
 				if b != "N" && b != "P" && b != "W" {
 					break
@@ -692,6 +723,8 @@ func genSMClient(r *RNG, n int, op string, emit func(string)) {
 			}
 			if !strings.Contains(line, " la=") && r.Chance(15) {
 				line += fmt.Sprintf(" la6=%d", 1+r.Intn(9))
+			} else if !strings.Contains(line, " la=") && r.Chance(12) {
+				line += " la=zone"
 			}
 			emit(line)
 		}
@@ -712,9 +745,9 @@ func genSMClient(r *RNG, n int, op string, emit func(string)) {
 			for c := 0; c < ncyc; c++ {
 				s := ""
 				for k := 0; k < R+1; k++ {
-					b := []string{"A", "E", "E", "L", "F", "N", "T"}[r.Intn(7)]
+					b := []string{"A", "E", "E", "L", "F", "N", "T", "O"}[r.Intn(8)]
 					s += b
-					if b == "A" || b == "E" || b == "L" || b == "T" {
+					if b == "A" || b == "E" || b == "L" || b == "T" || b == "O" {
 						break
 					}
 				}
